@@ -175,6 +175,14 @@ pub mod custom_provider {
     pub use leptos_i18n_macro::IcuDataProvider;
 }
 
+/// Verification hooks, only compiled with the `verif_hooks` feature (off by default).
+#[cfg(feature = "verif_hooks")]
+pub mod verif_hooks {
+    pub use crate::macro_helpers::formatting::verif::{
+        clear_hook, reset_formatters, set_hook, Point,
+    };
+}
+
 /// Reexports of backend libraries, mostly about formatting.
 pub mod reexports {
     #[cfg(feature = "format_nums")]
